@@ -24,7 +24,7 @@ def main():
     elif "/seed3/" in src:
         sid = f"{prop}-c{n}"
     demo_md = open(src + "/DEMO.md").read()
-    m = re.search(r"-run\s+'?\"?([\w|^$()]+)'?\"?\s+(\./[\w/.]+)", demo_md)
+    m = re.search(r"-run\s+'?\"?([\w|^$()]+)'?\"?\s+(?:-v\s+)?(\./[\w/.]+)", demo_md)
     if not m:
         print("cannot parse DEMO.md run command"); return 2
     runpat, pkg = m.group(1), m.group(2).rstrip("/")
